@@ -5,6 +5,7 @@ import (
 	"encoding/json"
 	"fmt"
 	"io"
+	"math/big"
 	"runtime"
 	"strings"
 	"testing"
@@ -243,7 +244,24 @@ func drawC07(rt *rapid.T) (c07Case, bool, []string) {
 	var bounds []int
 	for i := 0; i < nmsg; i++ {
 		var b []byte
-		switch rapid.IntRange(0, 7).Draw(rt, "msgclass") {
+		switch rapid.IntRange(0, 8).Draw(rt, "msgclass") {
+		case 8: // a top-level item that is no structure and is larger than the initial buffer: a long big integer, text or byte string
+			ln := rapid.SampledFrom([]int{496, 504, 512, 520, 528, 1024, 4096, 9000}).Draw(rt, "scalarlen")
+			raw := make([]byte, ln)
+			for x := range raw {
+				raw[x] = byte(0x21 + (x+i)%90)
+			}
+			n := &ttlvref.Node{Tag: 0x420000 + rapid.IntRange(1, 0x120).Draw(rt, "scalartag")}
+			switch rapid.IntRange(0, 2).Draw(rt, "scalartype") {
+			case 0:
+				n.Type, n.Big = ttlvref.BigInteger, new(big.Int).SetBytes(raw[:ln/8*8])
+			case 1:
+				n.Type, n.B = ttlvref.TextString, raw
+			default:
+				n.Type, n.B = ttlvref.ByteString, raw
+			}
+			b = ttlvref.Write(n)
+			labels = append(labels, "large-toplevel-scalar")
 		case 0: // around the initial 512 byte buffer
 			b = sizedMessage(8*rapid.IntRange(60, 68).Draw(rt, "around512"), byte(i))
 			labels = append(labels, "size~512")
